@@ -140,8 +140,10 @@ pub(crate) mod __verif_tuple_key {
         }
         kani::cover!(sz >= 2);
     }
-    // quick tier: every field number below 2^11 (one- and two-byte tags), every type and direction
-    //@ H kind=bounded tier=quick timeout=1500 bound="field numbers 1..=2047, every key data type and direction" oblig="tuple_key::field_number::roundtrip+discipline (n < 2^11)"
+    // every field number below 2^11 (one- and two-byte tags), every type and direction.  Even this did not
+    // finish in 25 minutes of CBMC time (iter_mut().for_each / zip / rotate over a symbolic-length prefix),
+    // so all field-number harnesses live in the thorough tier.
+    //@ H kind=bounded tier=thorough timeout=14400 bound="field numbers 1..=2047, every key data type and direction" oblig="tuple_key::field_number::roundtrip+discipline (n < 2^11)"
     #[kani::proof]
     #[kani::unwind(12)]
     #[kani::stub(prototk::invalid_field_number, stub_ifn)]
